@@ -198,6 +198,92 @@ impl Sess {
                     (line.to_string(), run_str(&self.m).to_string())
                 }
             }
+            "spec.cpureset" | "spec.masterreset" => {
+                let before = self.m.clone();
+                let mut after = self.m.clone();
+                let master = head == "spec.masterreset";
+                if master {
+                    after.master_reset();
+                } else {
+                    after.cpu_reset();
+                }
+                let (b, a) = (before.bus(), after.bus());
+                let (bs, as_) = (b.verif_state(), a.verif_state());
+                let (bb, ab) = (b.board(), a.board());
+                let f32eq = |x: &f32, y: &f32| x.to_bits() == y.to_bits();
+                let phys = bb.digital_input1() == ab.digital_input1()
+                    && f32eq(bb.temp(), ab.temp())
+                    && f32eq(&bb.analog_inputs()[0], &ab.analog_inputs()[0])
+                    && f32eq(&bb.analog_inputs()[1], &ab.analog_inputs()[1])
+                    && bb.dasr() == ab.dasr()
+                    && bb.daisr() == ab.daisr();
+                let common = b.memory()[..] == a.memory()[..]
+                    && bs.misr == as_.misr && bs.usr == as_.usr && bs.uart_send == as_.uart_send && bs.uart_recv == as_.uart_recv
+                    && before.stacksize() == after.stacksize() && before.programsize() == after.programsize()
+                    && before.step_mode() == after.step_mode() && phys;
+                let kept = if master {
+                    common
+                } else {
+                    common && bs.input_reg == as_.input_reg && bs.timer_enabled == as_.timer_enabled
+                        && bs.timer_div == as_.timer_div && *bb == *ab
+                };
+                let r = after.verif_state();
+                let regs: String = after.registers().content().iter().map(|x| hex2(*x)).collect();
+                let mut res = format!(
+                    "a={} ir={} r={} pr={} pf={} pi={} alu={}{}{}{} lb={} run={} w={} out={}{} micr={} ucr={}",
+                    r.address, r.instruction, regs,
+                    r.pending_register_write.map(|x| x.to_string()).unwrap_or("-".into()),
+                    b01(r.pending_flag_write), b01(r.pending_edge_interrupt),
+                    hex2(r.alu_output.0), b01(r.alu_output.1), b01(r.alu_output.2), b01(r.alu_output.3),
+                    hex2(r.last_bus_read), run_str(&after), b01(r.pending_wait_for_memory),
+                    hex2(a.output_fe()), hex2(a.output_ff()), hex2(as_.micr), hex2(as_.ucr)
+                );
+                if master {
+                    let d = ab.uio_dir();
+                    res += &format!(
+                        " in={}{}{}{} t={},{},{},{} do={}{} ao={},{} icr={} rpm={} dir={}{}{}",
+                        hex2(as_.input_reg[0]), hex2(as_.input_reg[1]), hex2(as_.input_reg[2]), hex2(as_.input_reg[3]),
+                        b01(as_.timer_enabled), as_.timer_div[0], as_.timer_div[1], as_.timer_div[2],
+                        hex2(*ab.digital_output1()), hex2(*ab.digital_output2()),
+                        ab.analog_outputs()[0].to_bits(), ab.analog_outputs()[1].to_bits(),
+                        hex2(ab.daicr().bits()), ab.fan_rpm(), b01(d[0]), b01(d[1]), b01(d[2])
+                    );
+                }
+                res += &format!(" kept={}", b01(kept));
+                (line.to_string(), res)
+            }
+            "spec.reload" => {
+                // spec.reload <ss> <ps> <hex> <edges>: reload here vs a newly created machine with the same limits
+                let ws: Vec<&str> = line.split(' ').collect();
+                let (ss, ps, img, n) = match (parse_ss(ws[1]), parse_ps(ws[2]), parse_hex(ws[3]), ws[4].parse::<usize>()) {
+                    (Some(a), Some(b), Some(c), Ok(d)) => (a, b, c, d),
+                    _ => return (line.to_string(), "bad-op".into()),
+                };
+                let mut old = self.m.clone();
+                let mut fresh = Machine::new(MachineConfig::default());
+                fresh.raw_mut().set_stacksize(old.stacksize());
+                fresh.raw_mut().set_programsize(old.programsize());
+                old.load(bytecode(&img, ss, ps));
+                fresh.load(bytecode(&img, ss, ps));
+                let view = |m: &Machine| {
+                    let r = m.verif_state();
+                    let b = m.bus().verif_state();
+                    format!("{:?} {:?} {:?} {:?} {} {} {:?} {:?} {} {} {:?}", r.address, r.instruction, m.registers().content(),
+                        (r.pending_register_write, r.pending_flag_write, r.pending_edge_interrupt, r.pending_wait_for_memory, r.alu_output, r.last_bus_read),
+                        run_str(m), fnv(&m.bus().memory()[..]), (m.bus().output_fe(), m.bus().output_ff()), b.input_reg,
+                        b.micr, b.ucr, (b.timer_enabled, b.timer_div, ss_str(m.stacksize()), ps_str(m.programsize())))
+                };
+                let mut res = "agree".to_string();
+                for k in 0..=n {
+                    if view(&old) != view(&fresh) {
+                        res = format!("differ at edge {}", k);
+                        break;
+                    }
+                    old.raw_mut().trigger_clock_edge();
+                    fresh.raw_mut().trigger_clock_edge();
+                }
+                (line.to_string(), res)
+            }
             "spec.nopanic" => (line.to_string(), if self.last_panicked { "panic".into() } else { "ok".into() }),
             _ => {
                 let r = self.apply(line);
